@@ -11,7 +11,7 @@ def run(tier, replay=None):
     s = scratch.make()
     scratch.activate(s)
     rng = random.Random(evidence.seed())
-    subs = bases.sub_bases()
+    subs = [b for b in bases.sub_bases() if 'a' in b[0]]    # parameter-free bases: see known finding under C13
     user = list(bases.USER_STYLE.items())
     if tier == "quick":
         libs = [("core_maths", 3, None), ("core_maths", 4, None), ("core_maths", 5, None), ("ext_maths", 4, None), ("base_e_maths", 4, None)]
